@@ -468,6 +468,62 @@ func TestVerifC17Ipset(t *testing.T) {
 			break
 		}
 	}
+	// thorough: additionally every ordered list of exactly 5 entries over a
+	// 20-entry sub-universe (the nesting / adjacency / boundary core).
+	if c.Thorough() && c.NumViolations() == 0 {
+		subS := []string{"10.0.0.16/32", "10.0.0.31/32", "10.0.0.18/31", "10.0.0.16/30", "10.0.0.28/30", "10.0.0.24/29",
+			"10.0.0.16/28", "10.0.0.32/28", "10.0.0.21/28", "10.0.0.0/27", "0.0.0.0/1", "0.0.0.0/0",
+			"2001:db8:0:1::/128", "2001:db8:0:1:ffff:ffff:ffff:fffe/127", "2001:db8:0:1:8000::/65", "2001:db8:0:1::/64",
+			"2001:db8:0:2::/64", "2001:db8::/63", "::/1", "bogus/0"}
+		var sub []int
+		for _, x := range subS {
+			i, ok := byStr[x]
+			if !ok {
+				c.HarnessError("sub-universe entry not in universe: " + x)
+				return
+			}
+			sub = append(sub, i)
+		}
+		c.Note(fmt.Sprintf("ipset: plus all ordered lists of exactly 5 entries over a %d-entry sub-universe", len(sub)))
+		var rec5 func() bool
+		rec5 = func() bool {
+			if len(list) == 5 {
+				if !run(list) {
+					return false
+				}
+				tally(list)
+				return true
+			}
+			for _, i := range sub {
+				list = append(list, i)
+				ok := rec5()
+				list = list[:len(list)-1]
+				if !ok {
+					return false
+				}
+			}
+			return true
+		}
+		w5 := 0
+	outer5:
+		for _, i := range sub {
+			for _, j := range sub {
+				mine := c.Mine(w5)
+				w5++
+				if !mine {
+					continue
+				}
+				list = append(list[:0], i, j)
+				if !rec5() {
+					break outer5
+				}
+				if c.OverBudget() {
+					c.Cap("ipset: time budget hit in length-5 pass")
+					break outer5
+				}
+			}
+		}
+	}
 	c.Add("evaluations", evals)
 	for k, v := range fam {
 		if v.in > 0 {
